@@ -129,6 +129,9 @@ class C16(BaseCheck):
         case['init'] = [[kk, 10 + j] for j, kk in enumerate(init_keys[:ninit])]
         if cls == 'gcols':
             case['init'] = [[kk, {'cm': v}] for kk, v in case['init']]
+        elif case['init'] and case.get('init_as') in ('pairs', 'none') and k.random() < 0.2:
+            # a key named twice in the initial pairs: store-then-replace (one key, first position, last value)
+            case['init'].append([case['init'][0][0], 99])
         kinds = ['set', 'add', 'add', 'add', 'del', 'pop', 'pop_at', 'popitem', 'setdefault', 'update',
                  'clear', 'sort', 'reverse']
         if cls not in ('sd', 'gcols'):
@@ -504,10 +507,13 @@ class C16(BaseCheck):
         keys = KEYS[:case['nkeys']]
         if case.get('falsy_key'):
             keys = [''] + keys[1:]
-        items = [[k, mkval(v)] for k, v in case.get('init', [])]
-        if case.get('init_as') in ('dict', 'sd') and case['class'] in ('gmeta', 'cmeta') or \
-                case.get('init_as') == 'dict':
-            pass  # insertion order of dict/SortableDict equals the pair order
+        items = []
+        for k_, v_ in case.get('init', []):
+            hit = [p for p in items if p[0] == k_]
+            if hit:
+                hit[0][1] = mkval(v_)       # repeated key in the initial content: replaced in place
+            else:
+                items.append([k_, mkval(v_)])
         for wd in worlds:
             wd[3] = [list(p) for p in items]
         viol = None
